@@ -16,14 +16,11 @@ Definition optN_eqb (a b : option N) : bool :=
 Definition decoded_matches (src : N) (off len : option N) (copied : bool) (d : decoded) : bool :=
   (src =? kind_code (d_kind d)) && optN_eqb off (d_off d) && optN_eqb len (d_len d) && Bool.eqb copied (d_copied d).
 
-(* verdict codes: 0 = holds, 1 = violation, 2 = known finding F27 (from_mapping panics on a
-   specification-valid compressed entry whose byte budget reaches the cluster size) *)
+(* verdict codes: 0 = holds, 1 = violation *)
 Definition l2_verdict (cb : N) (backing : bool) (v g : N)
     (src : N) (off len : option N) (copied : bool) (fm : option N) : N :=
   if s_l2_valid cb v then
     if negb (decoded_matches src off len copied (s_l2_decode cb backing (g / 2 ^ cb * 2 ^ cb) v)) then 1
-    else if s_l2_compressed v && (2 ^ cb <=? s_l2_clength cb v) then
-      match fm with None => 2 | Some x => if x =? v then 0 else 1 end
     else match fm with Some x => if x =? v then 0 else 1 | None => 1 end
   else 0.
 
